@@ -1,6 +1,244 @@
-"""C05 rules (placeholder: fail-closed until the rules are implemented)."""
-from ..loader import AnalysisError
+"""C05 - status, dry-run and run agree, and the two previews change nothing (effect closure + one shared decision)."""
+import ast
+
+from ..consteval import enum_members
+from ..index import FuncInfo, dotted, walk_no_nested, loc
+from .c02 import rule_cone_selection
+from .persist import rule_hash_after_accept
+from .schedtable import _calls, rule_decision_table, rule_submit_discipline
+
+FORBIDDEN = {
+    "SCHED_SUBMIT": "submits a job", "SCHED_CANCEL": "cancels a job", "SCHED_UNKNOWN": "runs an unclassified scheduler command",
+    "LOCAL_SUBMIT": "enqueues a task at the worker pool", "LOCAL_CANCEL": "cancels a task at the worker pool",
+    "LOCAL_SHUTDOWN": "shuts the worker pool down", "LOCAL_UNKNOWN": "sends an unclassified request to the worker pool",
+    "FS_DELETE": "deletes a file", "STATE_MUT": "changes recorded job ids / spec hashes",
+}
+STATE_WRITERS = {"gwf.backends.base:TrackingBackend.close", "gwf.core:FileSpecHashes.close"}
+
+
+def preview_closure(ctx, r, root, bindings, label):
+    res = ctx.resolver
+    visited, effects, unresolved = res.reach(root, bindings)
+    con = f"{root.module.relpath}::{root.qual}[{label}]"
+    seen = set()
+    n_bad = 0
+    for e in effects:
+        key = (e.kind, e.detail, e.where)
+        if key in seen:
+            continue
+        seen.add(key)
+        msg = None
+        if e.kind in FORBIDDEN:
+            msg = f"`gwf {label}` can reach code that {FORBIDDEN[e.kind]} ({e.detail} at {e.where})"
+        elif e.kind == "FS_WRITE" and e.finfo.key not in STATE_WRITERS:
+            msg = f"`gwf {label}` can reach a file write outside the two state-file saves ({e.detail} at {e.where})"
+        elif e.kind == "PROC" and e.finfo.key != "gwf.backends.utils:call":
+            msg = f"`gwf {label}` can start a process outside backends.utils.call ({e.detail} at {e.where})"
+        if msg:
+            n_bad += 1
+            r.violation(f"{con}::{e.kind}:{e.finfo.qual}", msg + "; call chain: " + " -> ".join(c.split(":")[1] for c in e.chain[-5:]), e.where,
+                        [" -> ".join(e.chain)])
+    for u in unresolved:
+        r.violation(f"{con}::unresolved", f"a call through an unknown callable cannot be bounded: {u}", u.split(" ")[0])
+        n_bad += 1
+    if not n_bad:
+        kinds = sorted({e.kind for e in effects})
+        r.ok(con, f"{len(visited)} (function, context) pairs reached; effects {kinds}: queries, reads and the two state-file saves only", root.where)
+    return visited, effects
 
 
 def run(ctx):
-    raise AnalysisError("rules for C05 not implemented yet")
+    idx = ctx.index
+    res = ctx.resolver
+    roots = res.command_roots()
+
+    r1 = ctx.rule("R1", "effect closure of `gwf status`: no submit/cancel/delete/state mutation reachable; only the no-op submit function")
+    preview_closure(ctx, r1, roots["status"], {}, "status")
+    gsm = idx.func("gwf.scheduling:get_status_map")
+    subs = []
+    for c in _calls(gsm.node):
+        if isinstance(c.func, ast.Name) and c.func.id == "schedule":
+            for kw in c.keywords:
+                if kw.arg == "submit_func":
+                    subs = [v[0].key for v in res.callable_values(kw.value, gsm, {})]
+            if not subs and len(c.args) > 5:
+                subs = [v[0].key for v in res.callable_values(c.args[5], gsm, {})]
+    r1.check(subs == ["gwf.scheduling:_submit_noop"], f"{gsm.module.relpath}::{gsm.qual}::submit_func", "status schedules with _submit_noop only",
+             f"the status map is computed with submit function(s) {subs}: it must be the no-op", gsm.where)
+    for key in subs:
+        f = idx.func(key)
+        _v, effs, _u = res.reach(f)
+        effs = [e for e in effs if e.kind not in ("FS_READ",)]
+        r1.check(not effs, f"{f.module.relpath}::{f.qual}", "effect-free", f"{f.name} has effects {sorted({e.kind for e in effs})}: `gwf status` is no longer side-effect free",
+                 f.where)
+
+    r2 = ctx.rule("R2", "effect closure of `gwf run --dry-run`: every effect of run is guarded by `not dry_run`")
+    preview_closure(ctx, r2, roots["run"], {"dry_run": True}, "run --dry-run")
+    _v, effs, _u = res.reach(roots["run"], {"dry_run": False})
+    kinds = {e.kind for e in effs}
+    r2.check({"SCHED_SUBMIT", "LOCAL_SUBMIT", "STATE_MUT"} <= kinds, f"{roots['run'].module.relpath}::run[real]", "the real run does reach submission (analysis is not vacuous)",
+             f"with dry_run=False the run reaches only {sorted(kinds)}: the closure analysis lost the submission path", roots["run"].where)
+    # the previews' group callback prefix
+    main = idx.func("gwf.cli:main")
+    _v, meffs, _u = res.reach(main)
+    okw = True
+    for e in meffs:
+        if e.kind in FORBIDDEN and e.kind not in ("STATE_MUT",):
+            r2.violation(f"{main.module.relpath}::main::{e.kind}", f"the group callback run before every command {FORBIDDEN[e.kind]} ({e.detail} at {e.where})", e.where)
+            okw = False
+        if e.kind == "FS_WRITE" and e.finfo.key not in ("gwf.cli:main", "gwf.cli:init", "gwf.conf:FileConfig.dump"):
+            r2.violation(f"{main.module.relpath}::main::write", f"the group callback writes a file at {e.where}", e.where)
+            okw = False
+    if okw:
+        r2.ok(f"{main.module.relpath}::main", "creates only .gwf/, .gwf/logs/ and (after a confirmed prompt, when no workflow exists) the project skeleton", main.where)
+    # mkdir targets in main are the state directories
+    for c in _calls(main.node):
+        if isinstance(c.func, ast.Attribute) and c.func.attr == "mkdir":
+            t = ast.unparse(c.func.value)
+            r2.check(".gwf" in t and "working_dir" in t, f"{main.module.relpath}::main::mkdir:{t[:40]}", "state directory under the project",
+                     f"the group callback creates `{t}`, which is not the project's state directory", loc(c, main.module))
+
+    r3 = ctx.rule("R3", "status, dry-run and run share one decision procedure; what is shown shouldrun/failed/cancelled is what is submitted", min_instances=5)
+    sw = idx.func("gwf.scheduling:submit_workflow")
+    for f in (gsm, sw):
+        ok = False
+        detail = ""
+        for c in _calls(f.node):
+            if isinstance(c.func, ast.Name) and c.func.id == "schedule":
+                kws = {k.arg: ast.unparse(k.value) for k in c.keywords}
+                args = [ast.unparse(a) for a in c.args]
+                p = f.positional_params()
+                st = kws.get("status_func") or (args[4] if len(args) > 4 else None)
+                backend_p = "backend"
+                ok = st == f"{backend_p}.status" and "graph" in args + list(kws.values()) and "fs" in args + list(kws.values()) \
+                    and "spec_hashes" in args + list(kws.values())
+                detail = f"schedule(..., status_func={st})"
+        r3.check(ok, f"{f.module.relpath}::{f.qual}::schedule", detail or "calls schedule",
+                 f"{f.name} does not call the shared schedule() with the caller's graph, filesystem snapshot, spec hashes and status_func=backend.status", f.where)
+    # dry-run selects an effect-free announcer, the real run a function that reaches the backend's submit
+    sel = {}
+    for flag in (True, False):
+        for c in _calls(sw.node):
+            if isinstance(c.func, (ast.Name, ast.Attribute)) and idx.canon(c.func, sw.module) == "functools.partial" and c.args:
+                sel[flag] = res.callable_values(c, sw, {"dry_run": flag})
+    dry_effs, real_effs = [], []
+    for f, extra in sel.get(True, []):
+        dry_effs += [e for e in res.reach(f, dict(extra))[1] if e.kind != "FS_READ"]
+    for f, extra in sel.get(False, []):
+        real_effs += [e for e in res.reach(f, dict(extra))[1]]
+    names = {k: [f.name for f, _e in v] for k, v in sel.items()}
+    r3.check(sel.get(True) and not dry_effs, f"{sw.module.relpath}::{sw.qual}::dry-run-submit", f"dry run uses {names.get(True)}: effect-free",
+             f"the submit function of a dry run ({names.get(True)}) has effects {sorted({e.kind + ':' + e.detail for e in dry_effs})}", sw.where)
+    r3.check(sel.get(False) and any(e.kind in ("SCHED_SUBMIT", "LOCAL_SUBMIT") for e in real_effs), f"{sw.module.relpath}::{sw.qual}::real-submit",
+             f"real run uses {names.get(False)}: reaches the backend's submit", f"the submit function of a real run ({names.get(False)}) never reaches a scheduler submit", sw.where)
+    rule_decision_table(ctx, r3)
+    rule_submit_discipline(ctx, r3)
+    rule_cone_selection(ctx, r3)
+    rule_hash_after_accept(ctx, r3)
+
+    r4 = ctx.rule("R4", "filters and formats show restrictions of the one computed table; printers are total (also on an empty selection)", min_instances=6)
+    st = roots["status"]
+    scon = f"{st.module.relpath}::{st.qual}"
+    # order: map first, then filters
+    map_line = None
+    table_var = None
+    for n in walk_no_nested(st.node):
+        if isinstance(n, ast.Assign) and isinstance(n.value, ast.Call) and idx.canon(n.value.func, st.module) == "gwf.scheduling.get_status_map":
+            map_line, table_var = n.lineno, n.targets[0].id
+            args = [ast.unparse(a) for a in n.value.args] + [k.arg for k in n.value.keywords]
+            r4.check("endpoints" not in [k.arg for k in n.value.keywords] and len(n.value.args) <= 4, scon + "::whole-map",
+                     "the status map is computed for the whole workflow (all endpoints) before any filter",
+                     "the status map is computed for a pre-filtered selection: the shown statuses would depend on the filters", loc(n, st.module))
+    r4.check(map_line is not None, scon + "::map", "get_status_map called", "status does not compute the status map through get_status_map", st.where)
+    filt = {}
+    for n in walk_no_nested(st.node):
+        if isinstance(n, ast.If):
+            for c in _calls(n):
+                if isinstance(c.func, ast.Attribute) and c.func.attr == "append" and c.args and isinstance(c.args[0], ast.Call):
+                    cls = dotted(c.args[0].func)
+                    filt[cls] = (ast.unparse(n.test), c.args[0], n)
+    want = {"StatusFilter": "status", "NameFilter": "targets", "EndpointFilter": "endpoints"}
+    for cls, flag in want.items():
+        got = filt.get(cls)
+        ok = got is not None and got[0] == flag and (map_line is None or got[2].lineno > map_line)
+        r4.check(ok, scon + f"::{cls}", f"{cls} added iff `{flag}` is given, after the map is complete",
+                 f"{cls} is not added exactly when `{flag}` is given (found: {got[0] if got else 'no such filter'})", st.where)
+    if "StatusFilter" in filt:
+        kws = {k.arg: ast.unparse(k.value) for k in filt["StatusFilter"][1].keywords}
+        r4.check(kws.get("status_provider") == f"{table_var}.get", scon + "::StatusFilter.provider", "status filter reads the computed table",
+                 f"the status filter reads `{kws.get('status_provider')}`, not the computed table", st.where)
+    if "EndpointFilter" in filt:
+        kws = {k.arg: ast.unparse(k.value) for k in filt["EndpointFilter"][1].keywords}
+        r4.check(kws.get("endpoints") == "graph.endpoints()" and kws.get("mode", "'include'") == "'include'", scon + "::EndpointFilter.args",
+                 "--endpoints keeps exactly the graph's endpoints", f"--endpoints builds EndpointFilter({kws})", st.where)
+    # restriction: values untouched
+    restr = False
+    for n in walk_no_nested(st.node):
+        if isinstance(n, ast.Assign) and isinstance(n.value, ast.DictComp):
+            d = n.value
+            g = d.generators[0]
+            if ast.unparse(g.iter) == f"{table_var}.items()" and isinstance(g.target, ast.Tuple) and len(g.target.elts) == 2:
+                k, v = [dotted(e) for e in g.target.elts]
+                if dotted(d.key) == k and dotted(d.value) == v and len(g.ifs) == 1 and ast.unparse(g.ifs[0]) == f"{k} in matches":
+                    restr = True
+    r4.check(restr, scon + "::restriction", "shown table = {k: v for k, v in table.items() if k in matches} (statuses untouched)",
+             "the shown table is not the plain restriction of the computed table to the matching targets", st.where)
+    # filters semantics
+    sf = idx.func("gwf.filtering:StatusFilter.predicate")
+    r4.check(any(ast.unparse(n.value).replace(" ", "") == "self.status_provider(target)inself.status" for n in walk_no_nested(sf.node) if isinstance(n, ast.Return)),
+             f"{sf.module.relpath}::{sf.qual}", "status filter keeps targets whose status is one of the requested", "StatusFilter.predicate changed polarity or source", sf.where)
+    ef = idx.func("gwf.filtering:EndpointFilter.predicate")
+    pol = {}
+    for n in walk_no_nested(ef.node):
+        if isinstance(n, ast.If) and isinstance(n.test, ast.Compare) and isinstance(n.test.comparators[0], ast.Constant):
+            mode = n.test.comparators[0].value
+            for s_ in n.body:
+                if isinstance(s_, ast.Return):
+                    pol[mode] = ast.unparse(s_.value)
+    r4.check(pol.get("include") == "target in self.endpoints" and pol.get("exclude") == "target not in self.endpoints", f"{ef.module.relpath}::{ef.qual}",
+             "include keeps endpoints, exclude drops them", f"EndpointFilter polarity is {pol}", ef.where)
+    cf = idx.func("gwf.filtering:CompositeFilter.apply")
+    seq = any(isinstance(n, ast.For) and dotted(n.iter) == "self.filters" and any(
+        isinstance(s_, ast.Assign) and ast.unparse(s_.value) == f"{dotted(n.target)}.apply(targets)" and dotted(s_.targets[0]) == "targets" for s_ in n.body)
+        for n in walk_no_nested(cf.node))
+    r4.check(seq, f"{cf.module.relpath}::{cf.qual}", "filters are applied one after the other (intersection)", "CompositeFilter does not apply every filter in sequence", cf.where)
+    # printers total
+    fm = idx.module_const("gwf.plugins.status", "FORMATS")
+    printers = []
+    if isinstance(fm, ast.Dict):
+        for v in fm.values:
+            printers.extend(x[0] for x in res.callable_values(v, None, {}))
+    choice = None
+    for d in st.node.decorator_list:
+        if isinstance(d, ast.Call) and any(isinstance(a, ast.Constant) and a.value == "--format" for a in d.args):
+            for kw in d.keywords:
+                if kw.arg == "type" and isinstance(kw.value, ast.Call) and kw.value.args and isinstance(kw.value.args[0], (ast.List, ast.Tuple)):
+                    choice = sorted(e.value for e in kw.value.args[0].elts if isinstance(e, ast.Constant))
+    keys = sorted(k.value for k in fm.keys if isinstance(k, ast.Constant)) if isinstance(fm, ast.Dict) else []
+    r4.check(choice == keys and keys, scon + "::formats", f"--format choices {choice} == FORMATS keys", f"--format accepts {choice} but FORMATS has {keys} (KeyError)", st.where)
+    for p in printers:
+        pcon = f"{p.module.relpath}::{p.qual}"
+        param = p.positional_params()[0]
+        problems = []
+        for n in walk_no_nested(p.node):
+            if isinstance(n, ast.Call) and isinstance(n.func, ast.Name) and n.func.id in ("max", "min") and len(n.args) == 1 and \
+                    not any(k.arg == "default" for k in n.keywords):
+                problems.append((n, f"{n.func.id}() over data derived from the table without default="))
+            if isinstance(n, ast.Subscript) and isinstance(n.slice, ast.Constant) and isinstance(n.slice.value, int) and isinstance(n.value, ast.Call):
+                problems.append((n, f"`{ast.unparse(n)}` indexes a possibly empty sequence"))
+            if isinstance(n, ast.Call) and isinstance(n.func, ast.Name) and n.func.id == "next" and len(n.args) == 1:
+                problems.append((n, "next() without default"))
+        if problems:
+            n, why = problems[0]
+            r4.violation(pcon, f"the printer is not total on an empty selection: {why} (e.g. `gwf status -s running` with nothing running crashes)", loc(n, p.module))
+        else:
+            r4.ok(pcon, "no unguarded max/min/[0]/next on table-derived data", p.where)
+    # visuals total over Status
+    try:
+        vis = ctx.ev.eval_global("gwf.plugins.status", "_STATUS_VISUALS")
+        members = set(enum_members(idx, idx.cls("gwf.core:Status")))
+        have = {k.member for k in vis}
+        r4.check(have == members, "src/gwf/plugins/status.py::_STATUS_VISUALS", "a visual for every Status member",
+                 f"_STATUS_VISUALS lacks {sorted(members - have)}: printing such a target raises KeyError", "src/gwf/plugins/status.py:1")
+    except Exception as exc:
+        r4.info("src/gwf/plugins/status.py::_STATUS_VISUALS", f"not evaluable: {exc}")
